@@ -102,7 +102,9 @@ def values_params():
         if calls_task and calls_enum:
             if rec_list and rec_dict:
                 out['deser'] = 'DRecursive'
-            elif not rec_list and not rec_dict and 'deserialize_value' not in _dump(ast.Module(body=fn.body, type_ignores=[])):
+            elif (not rec_list and not rec_dict
+                  and {n.func.attr for n in ast.walk(fn) if isinstance(n, ast.Call) and isinstance(n.func, ast.Attribute)}
+                  <= {'is_serialized_task', 'deserialize_task', 'is_serialized_enum', 'deserialize_enum'}):
                 out['deser'] = 'DShallow'
     tasks = _src('tasks.py')
     gs = _find(tasks, '_task__getstate__')
@@ -377,72 +379,91 @@ def intr_params():
     return out
 
 
-INFERRED = []       # parameters the ast extraction did not recognise and a behavioural probe (srcprobe.py) decided
+INFERRED = []       # parameters decided by a behavioural probe (srcprobe.py): shape not recognised, or probe and shape disagree
+PROBED = {}         # the probes' answers of the last run (None: no definite answer)
 
 
-def _fallback(out, key, unknown, probe):
-    """out[key] keeps its extracted value unless that is the Unknown one; then the probe's answer, if it has one."""
-    if out[key] == unknown:
+def run_probes():
+    """harness/srcprobe.py in its own interpreter and session, killed after 120 s: {parameter: answer or None}."""
+    import json
+    import signal
+    import subprocess
+    import sys
+    here = os.path.dirname(os.path.abspath(__file__))
+    env = dict(os.environ, PYTHONPATH=REPO + os.pathsep + here, PYTHONHASHSEED='0')
+    import tempfile
+    fd, res = tempfile.mkstemp(prefix='lvprobes', suffix='.json')
+    os.close(fd)
+    p = subprocess.Popen([sys.executable, os.path.join(here, 'srcprobe.py'), res], env=env, stdout=subprocess.DEVNULL,
+                         stderr=subprocess.DEVNULL, stdin=subprocess.DEVNULL, start_new_session=True, cwd=here)
+    try:
+        p.wait(timeout=120)
+    except subprocess.TimeoutExpired:
+        pass
+    finally:
         try:
-            val = probe()
-        except BaseException:
-            val = None
-        if val is not None and val != unknown:
-            out[key] = val
-            INFERRED.append(key)
+            os.killpg(p.pid, signal.SIGKILL)        # also the manager processes the probed executors started
+        except OSError:
+            pass
+    try:
+        with open(res) as f:
+            return json.load(f)
+    except (OSError, ValueError):
+        pass
+    finally:
+        try:
+            os.unlink(res)
+        except OSError:
+            pass
+    return {}
+
+
+def _settle(out, key, unknown, probed, pkey=None):
+    """The probe's definite answer where it has one (recorded when it is not what the ast extraction said); the extracted
+    value otherwise."""
+    val = probed.get(pkey or key)
+    if val is None or val == unknown:
+        return
+    if val != out[key]:
+        INFERRED.append(key if out[key] == unknown else f'{key} (shape read as {out[key]}, behaves as {val})')
+        out[key] = val
 
 
 def with_probes():
-    import srcprobe
     del INFERRED[:]
+    probed = run_probes()
+    PROBED.clear()
+    PROBED.update(probed)
     sp = sched_params()
-    if sp['p_cmp'] == 'CmpUnknown' or sp['p_dep_guard'] == 'false':
-        cmp_, dep = srcprobe.probe_ready()
-        _fallback(sp, 'p_cmp', 'CmpUnknown', lambda: cmp_)
-        _fallback(sp, 'p_dep_guard', 'false', lambda: dep)
-    _fallback(sp, 'p_missing', 'MUnknownMode', srcprobe.probe_missing)
-    _fallback(sp, 'p_final', 'FUnknownFinal', srcprobe.probe_final)
+    _settle(sp, 'p_cmp', 'CmpUnknown', probed)
+    _settle(sp, 'p_dep_guard', 'false', probed)
+    _settle(sp, 'p_missing', 'MUnknownMode', probed)
+    _settle(sp, 'p_final', 'FUnknownFinal', probed)
     ep = exec_params()
-    if 'Unknown' in ''.join(ep.values()):
-        start, ctor, wait = srcprobe.probe_exec()
-        _fallback(ep, 'start', 'StartUnknown', lambda: start)
-        _fallback(ep, 'ctor', 'CtorUnknown', lambda: ctor)
-        _fallback(ep, 'wait', 'WaitUnknown', lambda: wait)
+    _settle(ep, 'start', 'StartUnknown', probed)
+    _settle(ep, 'ctor', 'CtorUnknown', probed)
+    _settle(ep, 'wait', 'WaitUnknown', probed)
     sg = storage_params()
-    if sg['g_chars'] is None or 'false' in (sg['g_empty'], sg['g_key_parent'], sg['g_file_parent'], sg['g_delete_validates']):
-        pr = srcprobe.probe_storage()
-        _fallback(sg, 'g_chars', None, lambda: pr['g_chars'])
-        for k in ('g_empty', 'g_key_parent', 'g_file_parent', 'g_delete_validates'):
-            _fallback(sg, k, 'false', lambda k=k: pr[k])
+    _settle(sg, 'g_chars', None, probed)
+    for k in ('g_empty', 'g_key_parent', 'g_file_parent', 'g_delete_validates'):
+        _settle(sg, k, 'false', probed)
     vp = values_params()
-    if 'Unknown' in ''.join(vp.values()):
-        pv = srcprobe.probe_values()
-        for k, unk in (('deser', 'DUnknown'), ('setstate', 'SSUnknown'), ('getstate', 'GSUnknown'), ('keymode', 'KeyUnknown')):
-            _fallback(vp, k, unk, lambda k=k: pv[k])
+    for k, unk in (('deser', 'DUnknown'), ('setstate', 'SSUnknown'), ('getstate', 'GSUnknown'), ('keymode', 'KeyUnknown')):
+        _settle(vp, k, unk, probed)
     ipar = intr_params()
-    _fallback(ipar, 'gen', 'GenUnknown', srcprobe.probe_gen)
-    _fallback(ipar, 'bound', 'false', srcprobe.probe_bound)
-    if 'false' in (ipar['drain'], ipar['stop'], ipar['stopcancel']):
-        drain, stop, stopcancel = srcprobe.probe_interrupt_handlers()
-        _fallback(ipar, 'drain', 'false', lambda: drain)
-        _fallback(ipar, 'stop', 'false', lambda: stop)
-        _fallback(ipar, 'stopcancel', 'false', lambda: stopcancel)
+    _settle(ipar, 'gen', 'GenUnknown', probed)
+    for k in ('bound', 'drain', 'stop', 'stopcancel'):
+        _settle(ipar, k, 'false', probed)
     lp = log_params()
-    if lp['flush'] == 'FlushUnknown' or 'false' in (lp['fb'], lp['ca']):
-        pl = srcprobe.probe_log()
-        _fallback(lp, 'flush', 'FlushUnknown', lambda: pl['flush'])
-        _fallback(lp, 'fb', 'false', lambda: pl['fb'])
-        _fallback(lp, 'ca', 'false', lambda: pl['ca'])
+    _settle(lp, 'flush', 'FlushUnknown', probed)
+    _settle(lp, 'fb', 'false', probed)
+    _settle(lp, 'ca', 'false', probed)
     xp = ctx_params()
-    if 'false' in xp.values():
-        px = srcprobe.probe_ctx()
-        for k in ('serial', 'fork', 'spawn'):
-            _fallback(xp, k, 'false', lambda k=k: px[k])
+    for k in ('serial', 'fork', 'spawn'):
+        _settle(xp, k, 'false', probed)
     cp = cache_params()
-    if 'Unknown' in cp['order'] + cp['cleanup']:
-        order, cleanup = srcprobe.probe_cache()
-        _fallback(cp, 'order', 'UnknownOrder', lambda: order)
-        _fallback(cp, 'cleanup', 'UnknownCleanup', lambda: cleanup)
+    _settle(cp, 'order', 'UnknownOrder', probed)
+    _settle(cp, 'cleanup', 'UnknownCleanup', probed)
     return sp, ep, sg, vp, ipar, lp, xp, cp
 
 
